@@ -512,7 +512,7 @@ fn run_bash(unit: &Value, cases: &[BashCase], ctx: &mut Ctx) {
     if cases.is_empty() {
         return;
     }
-    let dir = format!("/verif/target/work/c15/{}", std::process::id());
+    let dir = format!("{}/target/work/c15/{}", root(), std::process::id());
     let _ = std::fs::remove_dir_all(&dir);
     let scratch = format!("{}/scratch", dir);
     if std::fs::create_dir_all(&scratch).is_err() {
